@@ -198,3 +198,17 @@ def same(a, b):
     if a is None or b is None:
         return False
     return a == b
+
+
+def close(a, b, tol=1e-12):
+    """equality up to float rounding of concrete coefficients (1./3 vs 1/3): every coefficient of a-b is tiny"""
+    a, b = Sym.lift(a), Sym.lift(b)
+    if a is None or b is None:
+        return False
+    if a == b:
+        return True
+    d = a - b
+    if list(d.den.keys()) != [()]:
+        return False
+    k = d.den[()]
+    return all(abs(c / k) <= tol for c in d.num.values())
